@@ -666,4 +666,4 @@ TASKS += _DISPATCH.PROCESS_TASKS
 
 # the constructors of the result objects (contracts/ctor_hvsr.py): row i of a result is curve i of what the driver hands over
 import contracts.ctor_hvsr as _CTOR
-TASKS += [t for t in _CTOR.TASKS if "HvsrTraditional.__init__" in t.label]
+TASKS += [t for t in _CTOR.TASKS if "HvsrTraditional.__init__" in t.label or "from_hvsr_curves" in t.label]
